@@ -8,6 +8,7 @@ import (
 func registerExtra(p *Program) {
 	registerRegexp(p)
 	registerCodec(p)
+	registerBig(p)
 	registerApps(p)
 	registerHash(p)
 	registerProtoCodec(p)
